@@ -7,5 +7,6 @@ CONSTANTS
   NOffer = 3
   NTake = 2
   WithClose = FALSE
+  GuardedClose = TRUE
 PROPERTY Live_AllDelivered
 CHECK_DEADLOCK FALSE
